@@ -30,15 +30,21 @@ pub enum ErrKind {
     WouldBlock,
     PermissionDenied,
     TimedOut,
+    /// a *hard error* whose kind happens to be UnexpectedEof (code that treats that kind as a clean end of data
+    /// would swallow it)
+    UnexpectedEof,
+    InvalidData,
 }
 impl ErrKind {
-    pub const ALL: [ErrKind; 6] = [
+    pub const ALL: [ErrKind; 8] = [
         ErrKind::Other,
         ErrKind::BrokenPipe,
         ErrKind::StorageFull,
         ErrKind::WouldBlock,
         ErrKind::PermissionDenied,
         ErrKind::TimedOut,
+        ErrKind::UnexpectedEof,
+        ErrKind::InvalidData,
     ];
     pub fn name(self) -> &'static str {
         match self {
@@ -48,6 +54,8 @@ impl ErrKind {
             ErrKind::WouldBlock => "WouldBlock",
             ErrKind::PermissionDenied => "PermissionDenied",
             ErrKind::TimedOut => "TimedOut",
+            ErrKind::UnexpectedEof => "UnexpectedEof",
+            ErrKind::InvalidData => "InvalidData",
         }
     }
     pub fn from_name(s: &str) -> ErrKind {
@@ -66,6 +74,8 @@ impl ErrKind {
             ErrKind::WouldBlock => ErrorKind::WouldBlock,
             ErrKind::PermissionDenied => ErrorKind::PermissionDenied,
             ErrKind::TimedOut => ErrorKind::TimedOut,
+            ErrKind::UnexpectedEof => ErrorKind::UnexpectedEof,
+            ErrKind::InvalidData => ErrorKind::InvalidData,
         };
         io::Error::new(k, "simulated device error")
     }
